@@ -53,6 +53,10 @@ class Contract:
         self.notes = g('notes', '')
         self.assumes = list(g('assumes', []))
         self.bounded = g('bounded', None)
+        self.sets = dict(g('sets', {}))
+        self.result_expr = g('result_expr', None)
+        self.also_check = g('also_check', False)
+        self.native_requires = list(g('native_requires', []))
         self.source_file = None
         self.name = cls.__name__
 
